@@ -1,10 +1,14 @@
 #!/bin/bash
-# gen/seedtest.sh <ID> <patch.diff> [tier]: applies a seeded change to /repo, runs the check, restores /repo.
+# gen/seedtest.sh <ID> <patch.diff> [tier]: applies a seeded change to /repo, runs the check, restores /repo
+# (and the evidence file, which must only ever hold a run on the unchanged tree).
 ID=$1; PATCH=$2; TIER=${3:-quick}
 cd /repo || exit 2
 if [ -n "$(git status --porcelain)" ]; then echo "/repo not clean"; exit 2; fi
 git apply "$PATCH" || { echo "patch does not apply"; exit 2; }
+cp /verif/evidence/$ID.json /tmp/seedtest_$ID.evidence 2>/dev/null
 cd /verif && bin/check $ID $TIER > /tmp/seedtest_$ID.out 2>&1; RC=$?
+cp /verif/evidence/$ID.json /tmp/seedtest_$ID.mutant_evidence.json 2>/dev/null
+[ -f /tmp/seedtest_$ID.evidence ] && cp /tmp/seedtest_$ID.evidence /verif/evidence/$ID.json
 cd /repo && git checkout -- . && git clean -fdq
 grep -c '^VIOLATION' /tmp/seedtest_$ID.out | sed "s/^/violation_lines=/"
 grep '^VIOLATION' /tmp/seedtest_$ID.out | head -3
